@@ -65,6 +65,15 @@ Theorem C12_month_id_lossless : forall id, 0 <= id <= 1571 ->
 Proof. exact id_facts. Qed.
 Print Assumptions C12_month_id_lossless.
 
+Theorem C12_month_id_lossless_1900_1969 : forall id, -840 <= id <= -1 ->
+  let s := month_start_of_id (of_Z id) in
+  let e := month_end_of_id (of_Z id) in
+  py_month_to_id s = of_Z id /\ py_month_to_id e = of_Z id
+  /\ py_is_month_start s = true /\ py_is_month_end e = true
+  /\ valid_ymd s = true /\ valid_ymd e = true
+  /\ date_add_days e 1 = month_start_of_id (iadd (of_Z id) 1).
+Proof. exact idpre_facts. Qed.
+
 Theorem C12_every_date_is_bracketed_by_its_month : forall o, LO <= o <= HI ->
   let d := D o in let id := py_month_to_id d in
   date_leb (month_start_of_id id) d = true /\ date_leb d (month_end_of_id id) = true
